@@ -751,14 +751,37 @@ func installLineReader(m *Machine, next func(st *State) (string, bool)) {
 	}
 	m.Hooks["(*bufio.Reader).ReadString"] = delimited(false)
 	m.Hooks["(*bufio.Reader).ReadBytes"] = delimited(true)
-	m.Hooks["(*bufio.Reader).ReadSlice"] = delimited(true)
-	m.Hooks["(*bufio.Reader).ReadLine"] = func(m *Machine, st *State, call *ssa.CallCommon, args []Val) ([]Val, bool) {
-		l, ok := next(st)
-		if !ok {
-			return []Val{&TupleV{E: []Val{nilV{}, false, eofVal}}}, true
+	m.Hooks["(*bufio.Reader).ReadSlice"] = func(m *Machine, st *State, call *ssa.CallCommon, args []Val) ([]Val, bool) {
+		alts, ok := delimited(true)(m, st, call, args)
+		if ok && len(alts) == 1 {
+			if tv, isT := alts[0].(*TupleV); isT {
+				if sv, isS := tv.E[0].(SliceV); isS && sv.Len_ > 4096 {
+					return []Val{&TupleV{E: []Val{tv.E[0], IfaceV{T: errType, V: "bufio: buffer full"}}}}, true
+				}
+			}
 		}
-		l = strings.TrimSuffix(l, "\n")
-		l = strings.TrimSuffix(l, "\r")
+		return alts, ok
+	}
+	// ReadLine hands out a line longer than the reader's buffer (4096 bytes by default) in pieces, with
+	// isPrefix set on all but the last; ReadSlice fails on such a line (bufio.ErrBufferFull)
+	pending := ""
+	havePending := false
+	m.Hooks["(*bufio.Reader).ReadLine"] = func(m *Machine, st *State, call *ssa.CallCommon, args []Val) ([]Val, bool) {
+		l := pending
+		if !havePending {
+			var ok bool
+			l, ok = next(st)
+			if !ok {
+				return []Val{&TupleV{E: []Val{nilV{}, false, eofVal}}}, true
+			}
+			l = strings.TrimSuffix(l, "\n")
+			l = strings.TrimSuffix(l, "\r")
+		}
+		havePending = false
+		if len(l) > 4096 {
+			pending, havePending = l[4096:], true
+			return []Val{&TupleV{E: []Val{byteSliceVal(st, []byte(l[:4096])), true, nilV{}}}}, true
+		}
 		return []Val{&TupleV{E: []Val{byteSliceVal(st, []byte(l)), false, nilV{}}}}, true
 	}
 }
